@@ -17,6 +17,7 @@ import vlib
 from vlib import main, write_ndjson, read_ndjson, MachineryError
 
 KEY_ASSOC = 'C02/assoc-rule+standalone-window/ref-traffic-not-counted'
+ALT_CFGS = ['1,1000,20,10000', '4,2000,20,10000', '5,5000,10,10000']
 INTERVALS = [0, 250, 700, 1000, 2000, 2500, 3000, 5000, 10000, 20000]
 THRESHOLDS = [(0, 1), (1, 2), (1, 1), (3, 2), (2, 1), (5, 2), (3, 1), (4, 1), (5, 1), (7, 1), (13, 10), (1, 4), (7, 2)]
 
@@ -366,7 +367,13 @@ def run_and_validate(c, drv, scns, tag, count=True):
     sp = os.path.join(c.scratch, tag + '.scn.ndjson')
     tp = os.path.join(c.scratch, tag + '.trace.ndjson')
     write_ndjson(sp, [o for s in scns for o in s])
-    c.run([drv, sp, tp], timeout=600)
+    cfgs = {s[0].get('cfg', '') for s in scns}
+    if len(cfgs) > 1:
+        raise MachineryError('scenarios of one driver run must share the statistic configuration: %s' % sorted(cfgs))
+    env = vlib.goenv()
+    if cfgs and list(cfgs)[0]:
+        env['VERIF_STAT_CFG'] = list(cfgs)[0]       # non-default geometry of the per-resource statistic (whole process)
+    c.run([drv, sp, tp], timeout=600, env=env)
     mism, nlines, r, drift = validate_file(c, tp, tag)
     if count:
         c.cov['traces_validated_against_impl'] += len(scns)
@@ -541,9 +548,20 @@ def check(c, tier, replay):
     rs, tr = random_scenarios(c, 500 if not thorough else 6000, tr)
     rd, tr = reload_directed(tr)
     rs = rd + rs
+    # the same kind of histories under non-default geometries of the per-resource statistic (sample count, interval of the
+    # default view; the spec leaves the bucket length open, the default interval comes from the configuration)
+    alt = []
+    for cfg in ALT_CFGS:
+        g, tr = random_scenarios(c, 120 if not thorough else 1500, tr)
+        for s in g:
+            s[0]['cfg'] = cfg
+            for o in s:         # (own-resource rules only: the classification of the known associated-rule finding assumes the default geometry)
+                for r in o.get('rules', []):
+                    r['ref'] = 0
+        alt.append(('altcfg-' + cfg.replace(',', '-'), g))
     ps, tr = path_scenarios(c, thorough, tr)
     seen = set()
-    for tag, group in (('tlc', tl), ('random', rs), ('gated', ps)):
+    for tag, group in [('tlc', tl), ('random', rs), ('gated', ps)] + alt:
         for i in range(0, len(group), 3000):
             part = group[i:i + 3000]
             mism, tp = run_and_validate(c, drv, part, '%s%d' % (tag, i))
